@@ -31,6 +31,10 @@ func checkC06(c *Ctx, r *Report) {
 	// the cell of an unresolvable (%nonassoc) conflict must hold the error code: GenTable leaves the prefill alone for
 	// an ERROR action (C04.d)
 	includeSome(r, "C06.d", func(sub *Report) { c04d(c, sub) }, "ERROR-keeps-prefill", "cell-writer")
+	// the error is reported for the configuration of THIS parse: the stack the lookup is made on belongs to one parse
+	// only if ParserInit gives it storage nothing else still refers to (C15.c) — a nested parse that writes into the
+	// suspended outer one makes the outer parse accept a non-sentence or fault on a garbage state
+	c15FreshStackAll(r, "C06.d←C15.c", st)
 	// a token code must reach a terminal's column only: translate's cases are exactly the terminals (C11.c)
 	sub := &Report{Prop: "C06", Extra: map[string]interface{}{}}
 	c11c(c, sub, st)
